@@ -34,14 +34,14 @@ def install(eng):
                                                      "gwf.backends.base:TrackingBackend.cancel"],
                    lambda seed, focus: enum_backend.replay_cancel(None, None, None, seed), crosscheck=True)
     eng.enumerator("config-scripts", ["C20"], CONF, lambda seed, focus: enum_conf.replay(None, focus, None, seed), crosscheck=True)
-    eng.enumerator("cli-status-dryrun-run", ["C02", "C05", "C06", "C10"],
+    eng.enumerator("cli-status-dryrun-run", ["C01", "C02", "C05", "C06", "C10", "C18"],
                    SCHED + CALLBACKS + ["gwf.plugins.run:run", "gwf.plugins.status:status"] + FILTERS, enum_cli.run_c05, crosscheck=True)
     # C06, second sentence (exact re-submission set after one change): no lemma generated, decided by this stand-in
     eng.enumerator("cli-rerun-after-one-change", ["C06"], SCHED + CALLBACKS + ["lemma:c06_convergence"], enum_cli.run_c06,
                    always=True)
     eng.enumerator("cli-interrupted-run", ["C09"], SCHED + CALLBACKS + BACKEND + ["gwf.plugins.run:run"], enum_cli.run_c09, crosscheck=True)
     HASHES = [k for k in eng.contracts if "SpecHashes" in k or k in ("gwf.core:get_spec_hashes", "gwf.core:hash_spec")]
-    eng.enumerator("cli-spec-hashes", ["C18"], HASHES + CALLBACKS + ["gwf.plugins.run:run", "gwf.plugins.touch:touch",
+    eng.enumerator("cli-spec-hashes", ["C18", "C01"], HASHES + CALLBACKS + ["gwf.plugins.run:run", "gwf.plugins.touch:touch",
                    "gwf.plugins.clean:clean", "gwf.plugins.touch:touch_workflow", "gwf.plugins.touch:touch_workflow._visit"],
                    enum_cli.run_c18, crosscheck=True)
     eng.enumerator("cli-clean", ["C15"], ["gwf.plugins.clean:clean", "gwf.plugins.clean:_delete_file"] + FILTERS,
@@ -57,8 +57,9 @@ def install(eng):
     eng.enumerator("workflow-sizes", ["C04"], GRAPH + SCHED, enum_cli.run_c04_sizes, always=True)
     from replay import enum_local
     LOCAL = [k for k in eng.contracts if k.startswith("gwf.backends.local:")]
-    eng.enumerator("local-pool-scenarios", ["C11", "C12", "C13"], LOCAL, lambda seed, focus: enum_local.replay(None, None, None, seed))
-    eng.enumerator("local-server-clients", ["C14"], LOCAL, lambda seed, focus: enum_local.replay_server(None, None, None, seed))
+    eng.enumerator("local-pool-scenarios", ["C11", "C12", "C13", "C07"], LOCAL, lambda seed, focus: enum_local.replay(None, None, None, seed))
+    eng.enumerator("local-server-clients", ["C14"], LOCAL, lambda seed, focus: enum_local.replay_server(None, None, None, seed),
+                   crosscheck=True)
     # C08 for the local backend across a restart of the pool (F15): real pool twice, real clients
     eng.enumerator("local-pool-restart", ["C08", "C07"], LOCAL + BACKEND, lambda seed, focus: enum_local.replay_restart(None, None, None, seed),
                    always=True)
